@@ -16,6 +16,12 @@ pub fn create_db(
     client: &Client,
     strategy: ConsensuStrategy,
 ) -> Response {
+    // The name becomes part of the data file names
+    if name.is_empty() || name.contains('/') || name.contains('\0') {
+        return Response::Error {
+            msg: String::from("Invalid database name"),
+        };
+    }
     if dbs.is_primary() || client.is_primary() {
         log::debug!(
             "Request::CreateDb - Creating database {} with strategy {:?}",
